@@ -114,7 +114,7 @@ CHECKS.update({
 
 CHECKS.update({
  "C17": ("proof", "Coq theorems (no axioms). Grammar clause: the sentences of the three RFC 4512 description grammars are given as concrete syntax trees - the fields plus every choice the grammar leaves open (length of every WSP / SP run, bare or parenthesised name / OID / string lists of any length incl. empty ones, \\5c or \\5C, kind and usage written or left out, any number of extensions, the quoted SYNTAX value Active Directory emits) - with a function writing the sentence and a function giving the denoted description; for every well-formed tree of each of the three types from_string returns exactly the denotation (the backtracking matcher is stepped through the pattern generated from the source with runs of spaces of any length, then the field readers - strip/split/lstrip loops - are shown to compute the denotation for any spacing). Totality clause: for ANY string each from_string returns a definition or raises ValueError (the matcher never exhausts its steps, re.sub always answers, the extension loops make progress, indexed groups are always captured). The tree conditions are executable and are evaluated by the extracted model on random trees; the Coq rendering of each tree is compared with an independent Python rendering, and the sentence is parsed by the implementation and by an independent RFC 4512 reference parser, which must both give the value the tree was made from.",
-         "That every string derivable from the ABNF is the rendering of some tree is by construction of the tree type (one constructor per ABNF alternative), cross-checked only in the tree->reference-parser direction. Extension keys are distinct in a tree (a repeated key is a dict update in the code; covered by the correspondence only). Python's sre is modelled by the matcher of Rx/Syntax.v; its agreement with CPython on these patterns is established by the correspondence.",
+         "That every string derivable from the ABNF is the rendering of some tree is by construction of the tree type (one constructor per ABNF alternative), cross-checked only in the tree->reference-parser direction. A repeated extension key denotes a dict update (first position, last values), as in the code and in the reference parser. Python's sre is modelled by the matcher of Rx/Syntax.v; its agreement with CPython on these patterns is established by the correspondence.",
          "machine-checked proof in Coq (grammar as concrete syntax trees; matcher stepped through the generated patterns for arbitrary spacing; reader loops) + executable tree conditions on random trees + independent renderer and reference parser + model/implementation correspondence"),
 })
 
